@@ -9,5 +9,5 @@ def run(ctx):
     corpus = []
     for r in RUNS:
         r["ticks"] = tuple(r["ticks"])
-    kprops.kernel_check(ctx, "C08", runs=RUNS, preds=['C08', 'C08p', 'C04s', 'C05'], corpus=corpus,
+    kprops.kernel_check(ctx, "C08", runs=RUNS, preds=['C08', 'C08l', 'C08p', 'C06t', 'C04s', 'C05'], corpus=corpus,
                         rule="random kernel programs with 'let' guards on store values, clocks, statuses and done flags that flip at arbitrary ticks, auxiliaries with guarded first frames, and original auxiliaries shared between framers (ownership conflicts); traces (actions, outline, elapsed, recurred after every send) compared with the Coq model. Non-trivial = outline change and > 6 events")
